@@ -118,6 +118,17 @@ func run(r *vk.Runner) {
 			otxt := prototext.MarshalOptions{}.Format(orig)
 			base := fmt.Sprintf("%s#%d", c.ID, i)
 
+			// the message the canonical spelling decodes to (computed lazily, once per message)
+			var canonBack *dynamicpb.Message
+			canon := func() *dynamicpb.Message {
+				if canonBack == nil {
+					canonBack = dynamicpb.NewMessage(orig.Descriptor())
+					if err := codec.JSONToProto([]byte(gpb.Render(sp, &gpb.RenderOpts{Target: -1})), canonBack); err != nil {
+						canonBack = dynamicpb.NewMessage(orig.Descriptor())
+					}
+				}
+				return canonBack
+			}
 			accept := func(id, vname string, doc string) {
 				r.Do(base+":"+id, func(t *vk.T) {
 					t.Coord("accept|" + vname + "|kind=" + kind)
@@ -135,6 +146,12 @@ func run(r *vk.Runner) {
 					if !gpb.EqualNormalized(orig, back, c.Schema.Root, c.Schema) {
 						btxt := prototext.MarshalOptions{}.Format(back)
 						t.Violation("spelling-decodes-differently|"+vname+"|kind="+kind, fmt.Sprintf("an alternate spelling decodes to a different message\nschema %s\nvariation %s\ndocument: %s\nexpected: %s\ndecoded:  %s", c.ID, vname, doc, otxt, btxt), doc, otxt, btxt)
+						return
+					}
+					if vname != "canonical" && !gpb.EqualStrict(canon(), back, c.Schema.Root, c.Schema) {
+						btxt := prototext.MarshalOptions{}.Format(back)
+						ctxt := prototext.MarshalOptions{}.Format(canon())
+						t.Violation("spelling-differs-from-canonical|"+vname+"|kind="+kind, fmt.Sprintf("an alternate spelling does not produce the same message as the canonical spelling\nschema %s\nvariation %s\ndocument: %s\ncanonical decodes to: %s\nthis decodes to:      %s", c.ID, vname, doc, ctxt, btxt), doc, ctxt, btxt)
 						return
 					}
 					t.Class("accepted-equal")
